@@ -6,7 +6,11 @@ cd $WT || exit 2
 export CARGO_NET_OFFLINE=true CARGO_TARGET_DIR=$WT/target
 git checkout -q -- . ; git clean -fdq src
 DEMO_CMD=$(python3 -c "import json;print(json.load(open('$WT/OUT/meta.json'))['demo_command'])")
-FILTER=$(echo "$DEMO_CMD" | sed 's/.*cargo test --offline *//')
+FILTER=$(python3 -c "
+import json,re
+d=json.load(open('$WT/OUT/meta.json'))['demo_command']
+m=re.findall(r'cargo test --offline\\s+([A-Za-z0-9_:]+)', d)
+print(m[-1] if m else d.split()[-1])")
 echo "demo filter: $FILTER"
 git apply OUT/demo.diff || { echo "DEMO DOES NOT APPLY"; exit 1; }
 cargo test --offline $FILTER 2>&1 | grep -E "^test result|FAILED|panicked" | head -5 > /tmp/wt/$NAME.without.txt
